@@ -117,15 +117,26 @@ impl<'de> JsonInput<'de> for &'de str {
     }
 }
 
+/// A short `FastStr` keeps its bytes inline, so the "zero-copy" handle is a private copy: a reader
+/// built on it would hand out strings with the lifetime of the input that die with the reader.
+/// Share the buffer when it really is shared, borrow the input (it lives for `'de`) otherwise.
+fn shared_or_borrowed<'de>(handle: FastStr, origin: &'de [u8]) -> JsonSlice<'de> {
+    if handle.as_bytes().as_ptr() == origin.as_ptr() {
+        JsonSlice::FastStr(handle)
+    } else {
+        JsonSlice::Raw(origin)
+    }
+}
+
 impl<'de> JsonInput<'de> for &'de Bytes {
     fn need_utf8_valid(&self) -> bool {
         true
     }
 
     fn to_json_slice(&self) -> JsonSlice<'de> {
-        let bytes = self.as_ref();
+        let bytes = self.to_u8_slice();
         let newed = self.slice_ref(bytes);
-        JsonSlice::FastStr(unsafe { FastStr::from_bytes_unchecked(newed) })
+        shared_or_borrowed(unsafe { FastStr::from_bytes_unchecked(newed) }, bytes)
     }
 
     fn from_subset(&self, sub: &'de [u8]) -> JsonSlice<'de> {
@@ -143,7 +154,7 @@ impl<'de> JsonInput<'de> for &'de FastStr {
     }
 
     fn to_json_slice(&self) -> JsonSlice<'de> {
-        JsonSlice::FastStr((**self).clone())
+        shared_or_borrowed((**self).clone(), self.to_u8_slice())
     }
 
     fn from_subset(&self, sub: &'de [u8]) -> JsonSlice<'de> {
